@@ -2681,6 +2681,13 @@ impl AggregationState {
 
         let n = key.values.len();
 
+        // Same 8-column scratch array as get_or_assign_perfect_index: wider
+        // keys merge through the exact HashMap path.
+        if n > 8 {
+            self.overflowed = true;
+            return None;
+        }
+
         // Phase 1: Register all keys and collect ids
         let mut ids = [0u8; 8];
         let mut any_new = false;
